@@ -33,6 +33,7 @@ from collections import Counter
 from pathlib import Path
 
 ROOT = Path(__file__).resolve().parent.parent
+REPO = os.environ.get("VERIF_REPO", "/repo")
 EVIDENCE_DIR = ROOT / "evidence"
 REPLAY_DIR = ROOT / "replays"
 KNOWN_FINDINGS = ROOT / "KNOWN_FINDINGS.txt"
@@ -274,7 +275,7 @@ def run_shard(prop_id: str, tier: str, seed: int, shard: int, nshards: int, out_
 
 def _child_env() -> dict:
     env = dict(os.environ)
-    pp = [str(ROOT), "/repo"]
+    pp = [str(ROOT), REPO]
     if env.get("PYTHONPATH"):
         pp.append(env["PYTHONPATH"])
     env["PYTHONPATH"] = os.pathsep.join(pp)
